@@ -59,7 +59,8 @@ def dc_models():
     out = []
     for n in (1, 2, 3):
         for ndef in range(0, n + 1):
-            for kind in ("dataclass", "namedtuple", "dc-initfalse", "dc-kwonly", "dc-allkwonly"):
+            for kind in ("dataclass", "namedtuple", "dc-initfalse", "dc-kwonly", "dc-allkwonly", "nt-subclass", "nt-collections",
+                         "nt-collections-subclass", "dc-subclass"):
                 out.append((kind, n, ndef))
     return out
 
@@ -77,6 +78,19 @@ def dc_source(kind, n, ndef):
         # the first field is keyword-only: the signature lists it last
         fields.insert(0, "    kw: int = field(default=9, kw_only=True)")
         return "from dataclasses import dataclass, field\n@dataclass\nclass DC:\n" + "\n".join(fields) + "\n"
+    if kind == "nt-subclass":
+        # a class derived from a typing.NamedTuple class
+        return "from typing import NamedTuple\nclass Base(NamedTuple):\n" + "\n".join(fields) + "\nclass DC(Base):\n    pass\n"
+    if kind in ("nt-collections", "nt-collections-subclass"):
+        names = [f"f{i}" for i in range(n)]
+        dflt = [100 + i for i in range(n - ndef, n)]
+        src = f"from collections import namedtuple\nNT0 = namedtuple('DC', {names!r}, defaults={dflt!r})\n"
+        return src + ("DC = NT0\n" if kind == "nt-collections" else "class DC(NT0):\n    pass\n")
+    if kind == "dc-subclass":
+        # fields declared on a base dataclass and on the subclass
+        base = "from dataclasses import dataclass\n@dataclass\nclass Base:\n" + ("\n".join(fields[:1]) if fields else "    pass") + "\n"
+        rest = "\n".join(fields[1:]) if len(fields) > 1 else "    pass"
+        return base + "@dataclass\nclass DC(Base):\n" + rest + "\n"
     if kind == "dc-allkwonly":
         # every field is keyword-only: no argument can be given by position
         return "from dataclasses import dataclass\n@dataclass(kw_only=True)\nclass DC:\n" + "\n".join(fields) + "\n"
